@@ -113,7 +113,8 @@ var specs = map[string]propSpec{
 	},
 	"C04": {
 		Units: []unitSpec{
-			{Name: "rapid-histories", Test: "TestC04Rapid", Rapid: true, QuickChecks: 25000, ThoroughChecks: 400000, QuickShards: 4, ThoroughShards: 16},
+			{Name: "rapid-histories", Test: "TestC04Rapid", Rapid: true, QuickChecks: 25000, ThoroughChecks: 400000, QuickShards: 4, ThoroughShards: 10},
+			{Name: "rapid-interleaved-iterators", Test: "TestC04Interleaved", Rapid: true, QuickChecks: 25000, ThoroughChecks: 400000, QuickShards: 2, ThoroughShards: 6},
 		},
 		Assumptions: append([]string{"the oracle is the engine itself on a freshly compiled expression (self-differential); the value's correctness is the business of C01-C03, C07-C09"}, commonAssumptions...),
 	},
